@@ -50,6 +50,6 @@ TLen(t) == CASE t.op = "bytes" -> Len(t.v)
              [] t.op = "addbyte" -> TLen(t.of)
              [] t.op = "cksum" -> 1
              [] t.op = "lookup" -> TLen(t.default)
-             [] t.op = "ref" -> 0
+             [] t.op = "ref" -> IF t.name \in {"EchoS", "EchoN"} THEN 1 ELSE 0
 Len16(t) == B(LE16(TLen(t)))
 =============================================================================
